@@ -93,9 +93,15 @@ def template_source(prog, chk):
         isn = [x for x in R.calls_to(ue, R.path_endswith("::is_none")) if R.origin(ue, x[1]["args"][0])[0] == "call" and R.origin(ue, x[1]["args"][0])[1] == eb]
         if isn:
             nb, nt, _ = isn[0]
-            sb = nt["t"]
-            st = ue.term(sb)
-            if st["k"] == "switch" and op_place(st["op"]) == (nt["dest"][0], ()):
+            # the branch on that answer - directly, or after it was given a name (`let first_seen = ..is_none();`)
+            sb, st = nt["t"], ue.term(nt["t"])
+            if not (st["k"] == "switch" and op_place(st["op"]) == (nt["dest"][0], ())):
+                for b2 in sorted(ue.reachable):
+                    t2 = ue.term(b2)
+                    if t2["k"] == "switch" and ue.dominates(nb, b2) and R.origin(ue, t2["op"], carriers={})[:2] == ("call", nb):
+                        sb, st = b2, t2
+                        break
+            if st["k"] == "switch" and (op_place(st["op"]) == (nt["dest"][0], ()) or R.origin(ue, st["op"], carriers={})[:2] == ("call", nb)):
                 true_t, false_t = R.switch_targets_bool(st)
                 ok = R.control_dependent_only_via(ue, ob, (sb, true_t)) and true_t != false_t
                 detail = "original_map.insert is reachable only through the is_none() == true edge of elem_map.insert"
